@@ -196,9 +196,11 @@ class GenerationDeltaTime:
         utc_timestamp_in_seconds : float
             Timestamp in seconds.
         """
-        msec = (
-            utc_timestamp_in_seconds * 1000 - ITS_EPOCH_MS + ELAPSED_MILLISECONDS
-        ) % 65536
+        # Whole milliseconds are taken from the timestamp rounded to microseconds: truncating
+        # ``seconds * 1000`` directly loses one millisecond for about a quarter of all
+        # timestamps between 2038-01-19 (2**31 s) and 2039-09-07 (2**41 ms).
+        unix_msec = round(utc_timestamp_in_seconds * 1_000_000) // 1000
+        msec = (unix_msec - ITS_EPOCH_MS + ELAPSED_MILLISECONDS) % 65536
         return cls(msec=int(msec))
 
     def as_timestamp_in_certain_point(self, utc_timestamp_in_millis: int) -> float:
